@@ -13,6 +13,9 @@
 (* the real run (a job to fire that is not there, a call to release that is not waiting) is     *)
 (* accepted as a no-op where the specification has nothing there either: the scenario may have  *)
 (* been generated along another of the orders the specification leaves open.                    *)
+(* A line "Hung" (the driver's watchdog: a goroutine of the controller that is still there when *)
+(* nothing moves any more and that waits at none of the scripted interfaces) has no action: a   *)
+(* call that does not end is not a behaviour of Controller (RefreshCompletes).                  *)
 EXTENDS Controller, TraceLib
 
 VARIABLES l, phase, fs,
@@ -25,7 +28,7 @@ DefaultCfg == [p |-> 1, d |-> 1, ep |-> 1, prep |-> 1, fork |-> 0, ft |-> FALSE,
 TraceCfgs == {DefaultCfg}
 TraceOraclesFor(c) == {[att |-> {}, prop |-> {}, sync |-> {}]}
 
-Fresh(c, o, n) ==
+Fresh(c, o, n, a) ==
     /\ cfg' = c /\ oracle' = o /\ now' = n
     /\ depVer' = [b \in 0..(MaxEpoch + 1) |-> 0]
     /\ up' = FALSE
@@ -34,7 +37,8 @@ Fresh(c, o, n) ==
     /\ latestTick' = -1 /\ tickDue' = FALSE
     /\ startedAt' = [slot |-> 0, waited |-> TRUE]
     /\ fetched' = Empty /\ shown' = Empty /\ hold' = {}
-    /\ nReorg' = 0 /\ nCrash' = 0 /\ nSpur' = 0
+    /\ acct' = a /\ lk' = "free"
+    /\ nReorg' = 0 /\ nCrash' = 0 /\ nSpur' = 0 /\ nAcct' = 0
 
 TraceInit ==
     /\ Init
@@ -54,7 +58,8 @@ TraceReset ==
     /\ AtLine("Reset")
     /\ Fresh([Line.cfg EXCEPT !.vals = SeqToSet(@)],
              [att |-> SeqToSet(Line.oracle.att), prop |-> SeqToSet(Line.oracle.prop), sync |-> SeqToSet(Line.oracle.sync)],
-             Line.now)
+             Line.now,
+             Answer(Line.acct.err, SeqToSet(Line.acct.vals)))
     /\ l' = l + 1 /\ phase' = "stim" /\ fs' = {} /\ cs' = Empty
 
 TraceStart == AtLine("Start") /\ Start(Line.w) /\ Stim
@@ -69,6 +74,8 @@ TraceHeadEvent == AtLine("HeadEvent") /\ (\E o \in BOOLEAN : HeadEvent(o)) /\ St
 TraceFire == AtLine("Fire") /\ Line.fired /\ FireStep(<<Line.k, Line.n>>, Line.h) /\ Stim
 TraceFireNone == AtLine("Fire") /\ ~Line.fired /\ <<Line.k, Line.n>> \notin DOMAIN jobs /\ UNCHANGED vars /\ Stim
 TraceHold == AtLine("Hold") /\ Hold(Line.k, Line.on) /\ Stim
+\* the accounts provider's answer from now on (any answer: the history says which)
+TraceAccounts == AtLine("Accounts") /\ SetAccountsStep(Answer(Line.err, SeqToSet(Line.vals))) /\ UNCHANGED nAcct /\ Stim
 LineCall == <<Line.k, Line.n, Line.ver, Line.jk>>
 TraceRelease ==
     /\ AtLine("Release") /\ Line.released
@@ -148,7 +155,7 @@ TraceMatch ==
 
 TraceNext ==
     \/ TraceReset \/ TraceStart \/ TraceCrash \/ TraceAdvance \/ TraceReorg \/ TraceEpochTick
-    \/ TraceHeadEvent \/ TraceFire \/ TraceFireNone \/ TraceHold \/ TraceRelease \/ TraceReleaseNone
+    \/ TraceHeadEvent \/ TraceFire \/ TraceFireNone \/ TraceHold \/ TraceAccounts \/ TraceRelease \/ TraceReleaseNone
     \/ TraceInternal \/ TraceMatch \/ TraceMismatch
 
 TraceSpec == TraceInit /\ [][TraceNext]_tvars
